@@ -10,7 +10,9 @@ for n in 1 2; do
   [ -f "$src/change$n.diff" ] || continue
   tree=$(mktemp -d /tmp/seedchk.XXXXXX)
   cp -a /repo/. "$tree"/
-  mkdir -p "$tree/seed_out"; cp "$src/demo$n.py" "$tree/seed_out/"
+  mkdir -p "$tree/seed_out"
+  # demos must import the library from the tree they sit in (seed_out/..), not from the agent's worktree
+  sed "s#'/tmp/seed-$id'#__import__('os').path.dirname(__import__('os').path.dirname(__import__('os').path.abspath(__file__)))#g; s#\"/tmp/seed-$id\"#__import__('os').path.dirname(__import__('os').path.dirname(__import__('os').path.abspath(__file__)))#g" "$src/demo$n.py" > "$tree/seed_out/demo$n.py"
   clean_rc=$( (cd "$tree" && timeout 300 /venv/bin/python seed_out/demo$n.py >/dev/null 2>&1; echo $?) )
   if ! (cd "$tree" && git apply "$src/change$n.diff"); then
     echo "$id-$n: patch does not apply to current /repo"; rm -rf "$tree"; continue
@@ -29,7 +31,7 @@ for n in 1 2; do
   case "$tests" in *"244 passed"*) ok=1;; *) ok=0;; esac
   if [ "$clean_rc" = 0 ] && [ "$demo_rc" != 0 ] && [ $ok = 1 ]; then
     d=/verif/seeded/$id-$n; mkdir -p "$d"
-    cp "$src/change$n.diff" "$d/patch.diff"; cp "$src/demo$n.py" "$d/demo.py"; cp "$src/notes.md" "$d/notes.md"
+    cp "$src/change$n.diff" "$d/patch.diff"; cp "$tree/seed_out/demo$n.py" "$d/demo.py"; cp "$src/notes.md" "$d/notes.md"
     /venv/bin/python - "$d" "$id" "$n" "$tests" "$clean_rc" "$demo_rc" "$results" <<'EOF'
 import json, sys
 d, pid, n, tests, clean_rc, demo_rc, results = sys.argv[1:8]
